@@ -26,8 +26,10 @@ type Scenario struct {
 	Body  func()
 	Check func(r *vrt.Result) string
 	// Sig maps a violation to a stable signature (used for the known-findings list).
-	Sig  func(r *vrt.Result, msg string) string
-	Opts vrt.Options
+	Sig func(r *vrt.Result, msg string) string
+	// Summary describes what a completed execution showed; distinct summaries are the distinct outcomes.
+	Summary func(r *vrt.Result) string
+	Opts    vrt.Options
 }
 
 type Check struct {
@@ -86,6 +88,7 @@ func Main(c *Check, args []string) int {
 	only := fs.String("scenario", "", "run only scenarios whose name contains this")
 	budget := fs.Int("budget", 0, "wall-clock budget in seconds (0: tier default)")
 	procs := fs.Int("procs", 0, "worker processes (0: number of CPUs)")
+	selftest := fs.Bool("selftest", false, "compare the outcome sets with and without state-key pruning (use with --scenario)")
 	_ = fs.Parse(args)
 	if *tier != "thorough" {
 		*tier = "quick"
@@ -112,6 +115,9 @@ func Main(c *Check, args []string) int {
 	if *replay != "" {
 		return doReplay(c, scens, *replay)
 	}
+	if *selftest {
+		return doSelfTest(c, scens)
+	}
 	if *worker != "" {
 		return doWorker(c, scens, *worker, *budget)
 	}
@@ -132,6 +138,7 @@ func explorerFor(c *Check, s *Scenario, known map[string]string) *vrt.Explorer {
 		sig = defaultSig
 	}
 	x.Signature = sig
+	x.Outcome = s.Summary
 	x.Known = map[string]bool{}
 	for k := range known {
 		x.Known[k] = true
@@ -384,4 +391,61 @@ func NormSig(r *vrt.Result, msg string) string {
 		sig = sig[:200]
 	}
 	return sig
+}
+
+
+// doSelfTest validates state-key pruning: the set of distinct outcome summaries of a scenario must be the
+// same whether or not executions are cut at visited states.
+func doSelfTest(c *Check, scens []Scenario) int {
+	bad := 0
+	for i := range scens {
+		s := &scens[i]
+		if s.Summary == nil {
+			continue
+		}
+		sets := [2]map[string]int{}
+		var execs [2]int
+		capped := false
+		for k, prune := range []bool{false, true} {
+			x := explorerFor(c, s, nil)
+			x.Opts.Prune = prune
+			x.KeepGoing = true
+			x.OutcomeSet = map[string]int{}
+			x.MaxExecs = 400000
+			if err := x.Explore(); err != nil {
+				fmt.Println("selftest", s.Name, "error:", err)
+				bad++
+			}
+			if !x.Stats.Exhaustive {
+				capped = true
+			}
+			sets[k] = x.OutcomeSet
+			execs[k] = x.Stats.Executions
+		}
+		if capped {
+			fmt.Printf("selftest %s: skipped (unpruned search exceeds the cap; %d executions)\n", s.Name, execs[0])
+			continue
+		}
+		ok := len(sets[0]) == len(sets[1])
+		for k := range sets[0] {
+			if _, in := sets[1][k]; !in {
+				ok = false
+				fmt.Println("  outcome only without pruning:", k)
+			}
+		}
+		for k := range sets[1] {
+			if _, in := sets[0][k]; !in {
+				ok = false
+				fmt.Println("  outcome only with pruning:", k)
+			}
+		}
+		fmt.Printf("selftest %s: unpruned %d executions / %d outcomes, pruned %d executions / %d outcomes: %v\n", s.Name, execs[0], len(sets[0]), execs[1], len(sets[1]), ok)
+		if !ok {
+			bad++
+		}
+	}
+	if bad > 0 {
+		return 1
+	}
+	return 0
 }
